@@ -101,12 +101,17 @@ class Interval(Module):
         Returns:
             Interval: intersection if this interval with the other one.
         """
-        if self.transform != other.transform:
+        if self._transform != other._transform:
             raise RuntimeError("Cant intersect Interval constraints with conflicting transforms!")
 
         lower_bound = torch.max(self.lower_bound, other.lower_bound)
         upper_bound = torch.min(self.upper_bound, other.upper_bound)
-        return Interval(lower_bound, upper_bound)
+        kwargs = {"transform": self._transform, "inv_transform": self._inv_transform}
+        if torch.all(upper_bound == math.inf):
+            return GreaterThan(lower_bound, **kwargs)
+        if torch.all(lower_bound == -math.inf):
+            return LessThan(upper_bound, **kwargs)
+        return Interval(lower_bound, upper_bound, **kwargs)
 
     def transform(self, tensor: Tensor) -> Tensor:
         """
